@@ -216,6 +216,140 @@ def run(p, led, tier):
         else:
             led.ok("C15-R1", key, where(t, t.node), "every path to return passes remove_all_for_agent(operation)")
 
+    # ---------------- R1b: one-step refinement on every small wait-for graph
+    # The controller's handling of an event is a graph transformation.  It is interpreted (fdai) on *every* graph with at most two
+    # edges over operations {a, b, c} and resources {r, s}, for every relevant lock state, and the resulting graph is compared with
+    # the delta the wait-for definition prescribes for that event.
+    ctx_cls0 = p.cls("OperationContext", CT)
+    lock_cls = p.cls("ResourceLock", TY)
+    OPS, RES = ("a", "b", "c"), ("r", "s")
+    all_edges = [(w, b, rr) for w in OPS for b in OPS if w != b for rr in RES]
+    graphs = [()] + [(e,) for e in all_edges] + list(itertools.combinations(all_edges, 2))
+
+    def setup(it, g, owner_r, preempt, a_holds_s=False):
+        c = it.instantiate(ctrl, [], {})
+        ctxs = {}
+        for name, prio in (("a", 5), ("b", 1), ("c", 1)):
+            oc = it.instantiate(ctx_cls0, [], dict(operation_id=name, agent_id="ag", priority=prio))
+            ctxs[name] = oc
+            c.fields["active_operations"][name] = oc
+        for rr in RES:
+            lk = it.instantiate(lock_cls, [], dict(resource_id=rr, allow_preemption=(preempt if rr == "r" else False)))
+            c.fields["resources"][rr] = lk
+        if owner_r:
+            lk = c.fields["resources"]["r"]
+            lk.fields.update(owner=owner_r, owner_priority=ctxs[owner_r].fields["priority"], hold_count=1)
+            ctxs[owner_r].fields["acquired_resources"]["r"] = lk
+        if a_holds_s:
+            lk = c.fields["resources"]["s"]
+            lk.fields.update(owner="a", owner_priority=5, hold_count=1)
+            ctxs["a"].fields["acquired_resources"]["s"] = lk
+        ed = c.fields["dependency_graph"].fields["edges"]
+        for (w, b, rr) in g:
+            ed.setdefault(w, []).append((b, rr))
+        return c, ctxs
+
+    def triples(c):
+        return frozenset((w, b, rr) for w, lst in c.fields["dependency_graph"].fields["edges"].items() for (b, rr) in lst)
+
+    def expected(kind, g, old_owner=None):
+        G = set(g)
+        if kind in ("ACQUIRED", "REENTRANT"):
+            return frozenset(e for e in G if not (e[0] == "a" and e[2] == "r"))
+        if kind == "BLOCKED":
+            return frozenset(G | {("a", old_owner, "r")})
+        if kind == "PREEMPTED":
+            out = set()
+            for (w, b, rr) in G:
+                if b == old_owner and rr == "r":
+                    b = "a"
+                if w == "a" and rr == "r":
+                    continue
+                if w != b:
+                    out.add((w, b, rr))
+            return frozenset(out)
+        if kind == "RELEASE":
+            return frozenset(e for e in G if not (e[1] == "a" and e[2] == "r"))
+        if kind == "END":
+            return frozenset(e for e in G if "a" not in (e[0], e[1]))
+        raise ValueError(kind)
+
+    scenarios = [("acquire free", None, False), ("acquire own (re-entrant)", "a", False), ("acquire held (blocked)", "b", False), ("acquire pre-emptable", "b", True)]
+    for label, owner, preempt in scenarios:
+        bad, n = [], 0
+        for g in graphs:
+            def go(o):
+                it = Interp(p, o)
+                c, ctxs = setup(it, g, owner, preempt)
+                r = it.call_fi(acq, [c, ctxs["a"], "r"], {})
+                return (getattr(r, "name", repr(r)), triples(c))
+            for _, (res_name, after) in explore(go, max_paths=20):
+                n += 1
+                want = expected(res_name, g, owner)
+                # a pre-empted owner may additionally be recorded as waiting on the new owner (it sits in the lock's waiting list)
+                alt = want | {(owner, "a", "r")} if res_name == "PREEMPTED" else want
+                if after != want and after != alt:
+                    bad.append(f"graph {sorted(g)} → {res_name}: got {sorted(after)}, definition gives {sorted(want)}")
+        key = f"CellCycleController.acquire_resource ▸ {label} ▸ all graphs ≤ 2 edges"
+        if bad:
+            led.fail("C15-R1", key, where(acq, acq.node), f"{len(bad)} of {n} cases differ from the wait-for definition, e.g. {bad[0]}", path=bad[:6],
+                     witness="B is blocked on r1 held by A; C (higher priority) pre-empts r1; the graph must now say B→C")
+        else:
+            led.ok("C15-R1", key, where(acq, acq.node), f"{n} cases: the graph after the event equals the definition's delta")
+    for label, holds_s in (("release r, holding nothing else", False), ("release r while still holding s", True)):
+        bad, n = [], 0
+        for g in graphs:
+            def go(o):
+                it = Interp(p, o)
+                c, ctxs = setup(it, g, "a", False, a_holds_s=holds_s)
+                it.call_fi(rel, [c, ctxs["a"], "r"], {})
+                return triples(c)
+            for _, after in explore(go, max_paths=20):
+                n += 1
+                want = expected("RELEASE", g)
+                if after != want:
+                    bad.append(f"graph {sorted(g)}: got {sorted(after)}, definition gives {sorted(want)}")
+        key = f"CellCycleController.release_resource ▸ {label} ▸ all graphs ≤ 2 edges"
+        if bad:
+            led.fail("C15-R1", key, where(rel, rel.node), f"{len(bad)} of {n} cases differ, e.g. {bad[0]}", path=bad[:6])
+        else:
+            led.ok("C15-R1", key, where(rel, rel.node), f"{n} cases: exactly the edges (·, releaser, resource) disappear")
+    for tname in ("complete_operation", "abort_operation"):
+        t = p.find_method(ctrl, tname)
+        for label, owner in (("holding r", "a"), ("holding nothing", None)):
+            bad, n = [], 0
+            for g in graphs:
+                def go(o):
+                    it = Interp(p, o)
+                    c, ctxs = setup(it, g, owner, False)
+                    it.call_fi(t, [c, ctxs["a"]] + (["reason"] if tname == "abort_operation" else []), {})
+                    return (triples(c), "a" in c.fields["active_operations"], c.fields["resources"]["r"].fields["owner"])
+                for _, (after, still_active, own) in explore(go, max_paths=20):
+                    n += 1
+                    want = expected("END", g)
+                    if after != want:
+                        bad.append(f"graph {sorted(g)}: got {sorted(after)}, definition gives {sorted(want)}")
+                    if still_active or own == "a":
+                        bad.append(f"after {tname} the operation is still active / owns r")
+            key = f"CellCycleController.{tname} ▸ {label} ▸ all graphs ≤ 2 edges"
+            if bad:
+                led.fail("C15-R1", key, where(t, t.node), f"{len(bad)} of {n} cases differ, e.g. {bad[0]}", path=bad[:6])
+            else:
+                led.ok("C15-R1", key, where(t, t.node), f"{n} cases: every edge mentioning the operation disappears, nothing else changes")
+    led.extra["graphs_enumerated"] = len(graphs)
+
+    # the victim owns nothing afterwards: the controller's release-all may not abandon the remaining resources after one failed release
+    from .c14 import _abandons
+    relall = p.find_method(ctrl, "release_all_resources")
+    if relall is not None:
+        ab = _abandons(relall)
+        key = "CellCycleController.release_all_resources ▸ a failed release does not abandon the victim's other resources"
+        if ab:
+            led.fail("C15-R2", key, where(relall, ab[0][1]), f"`{type(ab[0][1]).__name__.lower()}` leaves the clean-up loop after one failed release: a victim that lost a resource to pre-emption keeps the rest after being killed",
+                     witness="A holds r1 (pre-emptable) and r2; B pre-empts r1 and blocks on r2; A blocks on r1; watchdog kills A: A still owns r2")
+        else:
+            led.ok("C15-R2", key, where(relall, relall.node), "no break/return leaves the loop over the victim's record")
+
     # ---------------- R2 victim
     sel = p.find_method(wdc, "_select_deadlock_victim")
     exe = p.find_method(wdc, "execute")
